@@ -189,7 +189,7 @@ def spec_token(sp):
 
 
 def spec_kwargs(sp):
-    return {sp["kind"]: sp["value"]}
+    return {sp["kind"]: obj_value(sp)}
 
 
 # ----------------------------------------------------------------------------- configurations
@@ -347,7 +347,7 @@ def tuple_config(r, thorough):
 
 
 def cfg_key(cfg):
-    return (("scaled:" if cfg.get("special") == "scaled" else "")
+    return (("scaled:" if cfg.get("special") == "scaled" else "sparse:" if cfg.get("special") == "sparse" else "")
             + f"{cfg['iface']}:{cfg['target']}:{cfg['backing']}:lik=" + "+".join(l["spec"]["tag"] for l in cfg["liks"])
             + f":prior={cfg['prior']['tag']}")
 
@@ -388,7 +388,7 @@ def build_target(cuqi, cfg):
     if cfg["target"] == "tuple":
         l = cfg["liks"][0]
         model = l["A"].copy() if cfg.get("tuple_model", "ndarray") == "ndarray" else models[0]
-        Lval = l["spec"]["value"]; Pval = P["spec"]["value"]
+        Lval = obj_value(l["spec"]); Pval = obj_value(P["spec"])
         pmean = P["mean"] if len(P["mean"]) > 1 else float(P["mean"][0])
         return (l["d"].copy(), model, Lval, pmean, Pval), None, None
     for i, l in enumerate(cfg["liks"]):
@@ -577,6 +577,10 @@ def run(ctx):
         + [well_posed(lambda: tuple_config(r, thorough)) for _ in range(n_tuple)] \
         + [well_posed(lambda: gen_config(r, thorough, special="sqrtcov-nonsym")) for _ in range(n_nonsym)] \
         + [well_posed(lambda: scaled_config(r, thorough)) for _ in range(n_scaled)]
+    # first use of Gaussians stored as scipy.sparse matrices (own random stream: the configurations above are unchanged)
+    r_sp = np.random.RandomState(ctx.seed + 6062)
+    n_sparse = 32 if not thorough else 56 * 4
+    cfgs += [well_posed(lambda t=t: sparse_config(r_sp, thorough, t, ctx.seed)) for t in range(n_sparse)]
 
     records = []
     forms = {}
@@ -627,7 +631,7 @@ def run(ctx):
 
     for rec in records:
         cfg, key, desc = rec["cfg"], rec["key"], rec["desc"]
-        kind = ("rto-scaled-" if cfg.get("special") == "scaled" else ("rto-settings-" if "sampler" in cfg["history"] else "rto-history-") if cfg.get("history") else "rto-") + f"{cfg['iface']}-{cfg['target']}"
+        kind = ("rto-scaled-" if cfg.get("special") == "scaled" else "rto-sparse-" if cfg.get("special") == "sparse" else ("rto-settings-" if "sampler" in cfg["history"] else "rto-history-") if cfg.get("history") else "rto-") + f"{cfg['iface']}-{cfg['target']}"
         ctx.case(kind, desc)
         if "impl_err" in rec:
             # every generated configuration is a valid linear-Gaussian problem: a refusal is reported, not a wrong draw
@@ -643,6 +647,13 @@ def run(ctx):
     run_ugla_settings(ctx, cuqi, r, thorough)
     run_ugla(ctx, cuqi, r, thorough)
     run_validation(ctx, cuqi, r)
+    # session-3 extensions (own random streams, so the cases above are unchanged)
+    from harness.props.c06_factor import run_factor
+    run_factor(ctx, cuqi, np.random.RandomState(ctx.seed + 6061), thorough)
+    from harness.props.c06_loop import run_loop
+    run_loop(ctx, cuqi, np.random.RandomState(ctx.seed + 6063), thorough)
+    from harness.props.c06_uglaw import run_uglaw
+    run_uglaw(ctx, cuqi, np.random.RandomState(ctx.seed + 6064), thorough)
 
 
 def check_rto(ctx, rec):
@@ -865,12 +876,80 @@ def logd_oracle(ctx, key, desc, post, m_impl, B_impl, r):
         ctx.note(f"logd oracle not applicable at {key}: {repr(ex)[:100]}")
 
 
+SPARSE_FORMATS = ["dia", "csr", "csc", "coo", "bsr", "lil"]   # not dok: len(dok_matrix) is its number of stored entries, which cuqi takes for the dimension (a refusal, outside the property)
+
+
 def obj_value(sp):
-    """the object handed to the constructor / setter: the dense value, or a scipy.sparse matrix with the same numbers"""
-    if sp.get("sparse"):
+    """the object handed to the constructor / setter: the dense value, or a scipy.sparse matrix with the same numbers in the
+    storage format sp["sparse"] (True = csr)"""
+    fmt = sp.get("sparse")
+    if fmt:
         import scipy.sparse as spa
-        return spa.csr_matrix(sp["value"])
+        fmt = "csr" if fmt is True else fmt
+        v = sp["value"]
+        return v.asformat(fmt) if spa.issparse(v) else getattr(spa, fmt + "_matrix")(np.asarray(v, dtype=float))
     return sp["value"]
+
+
+def sparse_spec(r, dim, kind, form, fmt):
+    """a Gaussian specification stored as a scipy.sparse matrix: form 'diag' (diagonal) or 'band' (SPD tridiagonal for
+    cov / prec / sqrtcov — symmetric, so S Sᵀ = Sᵀ S —, upper or lower bidiagonal for sqrtprec, incl. the class docstring's
+    diags([1, -1], [0, 1])), in storage format fmt.  NB scipy's isspmatrix_dia tests the FORMAT, not diagonality."""
+    if dim < 3:
+        form = "diag"
+    if form == "diag":
+        sp = dict(gen_spec(r, dim, force=(kind, "diag")))
+    else:
+        dg = r.choice([2.0, 3.0, 4.0], size=dim).astype(float)
+        off = r.choice([-1.0, 0.5, 1.0], size=dim - 1).astype(float)
+        if kind == "sqrtprec":
+            sub = r.randint(3)
+            val = (np.eye(dim) - np.diag(np.ones(dim - 1), 1)) if sub == 0 else (np.diag(dg) + np.diag(off, 1 if sub == 1 else -1))
+        else:
+            val = np.diag(dg) + np.diag(off, 1) + np.diag(off, -1)
+        Dm = val if kind in ("cov", "prec") else val.T @ val
+        sp = {"kind": kind, "shape": "full", "value": val, "tag": f"{kind}-full",
+              "doc_prec": np.linalg.inv(Dm) if kind in ("cov", "sqrtcov") else Dm}
+    sp["sparse"] = fmt
+    sp["tag"] = sp["tag"] + "-sparse-" + fmt
+    return sp
+
+
+def sparse_config(r, thorough, t, seed):
+    """first-use configurations with one Gaussian (prior or one noise) given as a scipy.sparse matrix: kinds x {diag, band} x
+    storage formats are enumerated by the running index t (dia always included, the other formats rotate with the seed)"""
+    kind = ["cov", "prec", "sqrtcov", "sqrtprec"][t % 4]
+    form = ["band", "diag"][(t // 4) % 2]
+    fmts = ["dia"] + [SPARSE_FORMATS[1 + (seed + j) % 5] for j in range(3)]
+    fmt = fmts[(t // 8) % 4] if not thorough else SPARSE_FORMATS[(t // 8) % 6]
+    for _ in range(100):
+        cfg = gen_config(r, thorough)
+        if cfg["prior"]["type"] != "gauss" or cfg["n"] < 3 or cfg["target"] == "tuple":
+            continue
+        break
+    cfg["special"] = "sparse"
+    where = r.randint(3)
+    if where == 0 or cfg["liks"][0]["m"] < 3:
+        sp = sparse_spec(r, cfg["n"], kind, form, fmt)
+        cfg["prior"]["spec"] = sp
+        cfg["prior"]["tag"] = sp["tag"] + ("-mean1" if len(cfg["prior"]["mean"]) == 1 else "")
+    else:
+        l = cfg["liks"][r.randint(len(cfg["liks"]))] if cfg["liks"][-1]["m"] >= 3 else cfg["liks"][0]
+        if l["m"] < 3:
+            l = cfg["liks"][0]
+        l["spec"] = sparse_spec(r, l["m"], kind, form, fmt)
+    if kind == "sqrtprec" and cfg["iface"] == "legacy" and len(cfg["liks"]) == 1 and r.rand() < 0.5:
+        # the 5-tuple form takes the square roots directly
+        if cfg["liks"][0]["spec"]["kind"] != "sqrtprec":
+            cfg["liks"][0]["spec"] = gen_spec(r, cfg["liks"][0]["m"], force=("sqrtprec", ["vector", "diag", "full"][r.randint(3)]))
+        if cfg["prior"]["spec"]["kind"] != "sqrtprec":
+            sp = gen_spec(r, cfg["n"], force=("sqrtprec", ["vector", "diag", "full"][r.randint(3)]))
+            cfg["prior"]["spec"] = sp
+            cfg["prior"]["tag"] = sp["tag"] + ("-mean1" if len(cfg["prior"]["mean"]) == 1 else "")
+        cfg["target"] = "tuple"
+        cfg["tuple_model"] = ["ndarray", "LinearModel"][r.randint(2)]
+        cfg["backing"] = "matrix"
+    return cfg
 
 
 def history_spec(r, dim, kind):
@@ -892,8 +971,9 @@ def history_spec(r, dim, kind):
         Dm = val if kind in ("cov", "prec") else val.T @ val
         sp = {"kind": kind, "shape": "full", "value": val, "tag": f"{kind}-full",
               "doc_prec": np.linalg.inv(Dm) if kind in ("cov", "sqrtcov") else Dm}
-    sp["sparse"] = True
-    sp["tag"] = sp["tag"] + "-sparse"
+    fmt = SPARSE_FORMATS[r.randint(len(SPARSE_FORMATS))]
+    sp["sparse"] = fmt
+    sp["tag"] = sp["tag"] + "-sparse-" + fmt
     return sp
 
 
